@@ -284,6 +284,61 @@ fn strategy_seq(ctx: &Ctx) -> BoxedStrategy<SeqCase> {
     prop_oneof![4 => proptest::collection::vec(one, 2..=6), 1 => proptest::collection::vec(strategy(ctx), 2..=4)].prop_map(|searches| SeqCase { searches }).boxed()
 }
 
+// --- buffers that straddle a multiple of 4 GiB ---------------------------------------
+
+fn straddle_ok(addr: usize, pos: usize) -> Result<(), String> {
+    let c = Case { len: 16384, key: (addr ^ pos) as u64 & !1, plants: vec![], prefix: 0, decoys: vec![], full: vec![(pos, 2, 1)] };
+    let b = buffer(&c);
+    let want = model(&b);
+    match sbx::at_address(addr, &b, run) {
+        None => Err("INCONCLUSIVE: the address could not be mapped".into()),
+        Some(Boxed::Inconclusive(w)) => Err(format!("INCONCLUSIVE: {w}")),
+        Some(Boxed::Crash(s)) => Err(format!("find_header crashed: {s}")),
+        Some(Boxed::Done(t)) => {
+            let ok = match (&want, t.get("r")) {
+                (Want::NoHeader, Some(Val::None)) => true,
+                (Want::SomeErr, Some(Val::Err(_))) => true,
+                (Want::Found(i, l), Some(Val::Ext(o, n))) => o == i && n == l && t.get("idx") == Some(&Val::U(*i as u64)),
+                _ => false,
+            };
+            if ok {
+                Ok(())
+            } else {
+                Err(format!("expected {want:?}, got {}", t.render().replace('\n', " ")))
+            }
+        }
+    }
+}
+
+fn run_straddle(ctx: &Ctx, rep: &mut SubReport) {
+    if ctx.worker != 0 {
+        return;
+    }
+    let mut granted = 0;
+    for addr in [0x1_0000_0000usize - 4096, 0x2_0000_0000 - 8192, 0x8000_0000 - 4096, 0x100_0000_0000 - 4096] {
+        for pos in [0usize, 4088, 4096, 4160, 8184] {
+            match straddle_ok(addr, pos) {
+                Ok(()) => {
+                    granted += 1;
+                    rep.evaluations += 1;
+                    rep.nontrivial.insert((addr + pos) as u64);
+                }
+                Err(m) if m.starts_with("INCONCLUSIVE") => {}
+                Err(m) => {
+                    rep.violations.push(Violation { sub: "straddling-buffers".into(), profile: profile_name().into(), message: format!("16 KiB image at {addr:#x} (it straddles a multiple of 4 GiB / 2 GiB), complete header at offset {pos}: {m}"), case: json!({"addr": addr, "pos": pos}) });
+                    return;
+                }
+            }
+        }
+    }
+    rep.notes.push(format!("{granted} searches in images that straddle a 2 GiB / 4 GiB / 1 TiB mark"));
+    rep.samples.push(json!({"addr": "0xfffff000", "header_at": 4160, "expect": "found at its offset"}));
+}
+
+fn replay_straddle(v: &serde_json::Value) -> Result<(), String> {
+    straddle_ok(v["addr"].as_u64().unwrap_or(0) as usize, v["pos"].as_u64().unwrap_or(0) as usize)
+}
+
 fn lens_of_interest() -> Vec<usize> {
     let mut v: Vec<usize> = (0..=96).collect();
     v.extend(8150..=8230);
@@ -412,6 +467,13 @@ pub fn subs() -> Vec<Box<dyn Sub>> {
         enumerate: Some(enumerate),
         enum_exhaustive: false,
         eval,
+    }),
+    Box::new(LoopSub {
+        name: "straddling-buffers",
+        profiles: Profiles::Both,
+        rule: "16 KiB images mapped so that they straddle a multiple of 4 GiB (also 2 GiB, 8 GiB, 1 TiB), with a complete valid header in front of, on and behind the mark: the search gives the reference result wherever the image lives. Non-trivial = every granted mapping",
+        run: run_straddle,
+        replay: replay_straddle,
     }),
     Box::new(PropSub::<SeqCase> {
         name: "find-sequences",
